@@ -213,6 +213,10 @@ func (c *caseGen) step() {
 		c.pkts = append(c.pkts, pktInfo{fmt.Sprintf("%d.0", l), i, srv, len(strings.Split(body, ","))})
 	case k < 98:
 		ep, _, _ := c.ep()
+		if r.Chance(1, 2) {
+			c.op("cwr %s %d %d", ep, 2+r.Intn(5), 1+r.Intn(8))
+			return
+		}
 		c.op("close %s", ep)
 	default: // burst: push the counter far ahead, deliver only the last
 		ep, i, srv := c.ep()
